@@ -111,6 +111,7 @@ def hold_case(seed, model, rep):
                 time.sleep(dt)
             procs.append((api, time.time(), repo.popen(APIS[api])))
         results = []
+        inconclusive_run = False
         for api, ts, p in procs:
             out, err = p.communicate(timeout=60)
             # only a contender whose whole life lay inside the hold is conclusive: the holder must
@@ -119,6 +120,9 @@ def hold_case(seed, model, rep):
                 results.append((api, ts, time.time(), p.returncode, err.decode("utf-8", "replace")))
             else:
                 rep.count("contender_inconclusive")
+                if api == "run":
+                    # it may have acquired the lock after the holder had gone, and run its command
+                    inconclusive_run = True
         if end_mode == "kill":
             holder.send_signal(signal.SIGKILL)
         hout, herr = holder.communicate(timeout=60)
@@ -145,7 +149,7 @@ def hold_case(seed, model, rep):
         if violated:
             return
         started = [t for t in repo.traces() if t["command"] == "work"]
-        if started:
+        if started and not inconclusive_run:
             rep.oracle_fail({"kind": "a losing run started an executable", "case": case, "started": [t["target"] for t in started]})
             return
         if before is not None and end_mode != "kill":
